@@ -16,6 +16,7 @@ import (
 
 type seedEdit struct {
 	File, Old, New string
+	All            bool // replace every occurrence (identifier renames)
 }
 
 type Seed struct {
@@ -75,6 +76,12 @@ func parseSeeds(path string) ([]*Seed, error) {
 		case line == "--- old":
 			flush()
 			mode = "old"
+		case line == "--- old-all":
+			flush()
+			mode = "old"
+			if ed != nil {
+				ed.All = true
+			}
 		case line == "--- new":
 			flush()
 			mode = "new"
@@ -121,7 +128,15 @@ func runSeed(repo string, s *Seed) auditResult {
 			}
 			src = b
 		}
-		if n := strings.Count(string(src), e.Old); n != 1 {
+		n := strings.Count(string(src), e.Old)
+		if e.All {
+			if n == 0 {
+				return auditResult{seed: s, status: "skipped", detail: fmt.Sprintf("pattern does not occur in %s", e.File)}
+			}
+			ov[abs] = []byte(strings.ReplaceAll(string(src), e.Old, e.New))
+			continue
+		}
+		if n != 1 {
 			return auditResult{seed: s, status: "skipped", detail: fmt.Sprintf("pattern occurs %d times in %s (tree already edited?)", n, e.File)}
 		}
 		ov[abs] = []byte(strings.Replace(string(src), e.Old, e.New, 1))
@@ -187,9 +202,29 @@ func runAudit(repo, verif, prop string, seed int64) int {
 		fmt.Println("ERROR", err)
 		return 2
 	}
+	// a seed with property ALL is expanded into one seed per property (used for benign noise edits)
+	var expanded []*Seed
+	for _, s := range seeds {
+		if s.Property != "ALL" {
+			expanded = append(expanded, s)
+			continue
+		}
+		var ids []string
+		for id := range properties {
+			ids = append(ids, id)
+		}
+		sort.Strings(ids)
+		for _, id := range ids {
+			cp := *s
+			cp.Property = id
+			cp.ID = s.ID + "@" + id
+			expanded = append(expanded, &cp)
+		}
+	}
+	seeds = expanded
 	var sel []*Seed
 	for _, s := range seeds {
-		if prop == "" || prop == "all" || s.Property == prop || s.ID == prop {
+		if prop == "" || prop == "all" || s.Property == prop || s.ID == prop || strings.HasPrefix(s.ID, prop+"@") {
 			if _, ok := properties[s.Property]; ok {
 				sel = append(sel, s)
 			}
